@@ -164,7 +164,7 @@ theorem publish_guard (filter : List String) (details : Data) (s : Secret)
   simp [publish, h]
 
 theorem controllable_spec (s : Secret) :
-    controllable s .owner = true ↔ (s.ctrl = .owner ∨ (s.ctrl = .none ∧ s.conn = true)) := by
+    controllable s .owner = true ↔ (s.ctrl = .owner ∨ ((s.ctrl = .none ∨ s.ctrl = .xrPlain) ∧ s.conn = true)) := by
   cases s with
   | mk conn ctrl data => cases ctrl <;> simp [controllable]
 
@@ -330,6 +330,21 @@ theorem extract_fromPath (conn : Data) (f : String → Option String) (name : St
 theorem extract_needs_name (conn : Data) (f : String → Option String) (c : Cfg) (cs : List Cfg) (acc : Data)
     (h : c.name = "") : extract conn f (c :: cs) acc = none := by
   simp [extract, h]
+
+/-- **Provenance through the composer.** The connection secret of a composed resource that the
+XR does not control is never read into the XR's secret: the reconcile fails on that resource
+(MustBeControllableBy) before any detail is extracted, nothing is published and the resource is
+not reported as applied. -/
+theorem pt_foreign_not_published (cdSecret : Option Data) (key : String) (xrSecret : Slot) :
+    ptFlow .other cdSecret key xrSecret = (⟨xrSecret, false, true, 0⟩, false) := by
+  simp [ptFlow]
+
+/-- When the XR does control the resource, exactly the requested key of that resource's own
+connection secret is published (filtered like any other detail). -/
+theorem pt_own_published (c : Ctrl) (hc : c ≠ .other) (conn : Data) (key v : String) (hk : key ≠ "")
+    (hv : dget conn key = some v) :
+    (ptFlow c (some conn) key none).1.slot = some ⟨true, .owner, [(key, v)]⟩ := by
+  simp [ptFlow, hc, extract, hk, hv, publish, desiredData, allowed, dset]
 
 /-! ### non-vacuity -/
 example : (publish true ["user"] [("user", "1"), ("pass", "2")] (some ⟨true, .owner, [("stale", "x")]⟩)).slot =
